@@ -111,6 +111,14 @@ RNAMES = ['a', 'b', 'c', 'd', 'e', 'x', 'y', 'self', 'cls', 'args', 'kwargs', 'k
 CTXS = ['func', 'func', 'func', 'async', 'method', 'amethod', 'static', 'classm']
 
 
+def pick_default(rng: Any) -> str:
+    return gen_default(rng) if rng.random() < 0.4 else rng.choice(DEFAULTS)
+
+
+def pick_annotation(rng: Any) -> str:
+    return gen_annotation(rng) if rng.random() < 0.4 else rng.choice(ANNOTS)
+
+
 def random_params(rng: Any, nmin: int, nmax: int, bad: float = 0.0) -> List[List[Any]]:
     n = rng.randint(nmin, nmax)
     names = rng.sample(RNAMES, n)
@@ -133,15 +141,178 @@ def random_params(rng: Any, nmin: int, nmax: int, bad: float = 0.0) -> List[List
         d = None
         if k in (PO, POK):
             if seen_default or rng.random() < pd * 0.6:
-                d = rng.choice(DEFAULTS)
+                d = pick_default(rng)
                 seen_default = True
         elif k == KW and rng.random() < pd:
-            d = rng.choice(DEFAULTS)
+            d = pick_default(rng)
         a = None
         if rng.random() < pa:
-            a = rng.choice(BAD_ANNOTS) if rng.random() < bad else rng.choice(ANNOTS)
+            a = rng.choice(BAD_ANNOTS) if rng.random() < bad else pick_annotation(rng)
         out.append([name, k, d, a])
     return out
+
+
+# ------------------------------------------------------------------ generated compound expressions
+ENAMES = ['a', 'b', 'c', 'x', 'y', 'A', 'B', 'T']
+BINOPS = [ast.Add, ast.Sub, ast.Mult, ast.Div, ast.FloorDiv, ast.Mod, ast.MatMult, ast.Pow, ast.LShift, ast.RShift, ast.BitAnd, ast.BitOr, ast.BitXor]
+CMPOPS = [ast.Lt, ast.Eq, ast.NotEq, ast.In, ast.NotIn, ast.Is, ast.IsNot, ast.GtE]
+L = ast.Load()
+
+def atom(rng):
+    r = rng.random()
+    if r < 0.6: return ast.Name(rng.choice(ENAMES), L)
+    if r < 0.75: return ast.Constant(rng.choice([0, 1, 2, 10]))
+    if r < 0.85: return ast.Constant(rng.choice(['s', 'k', '']))
+    if r < 0.9: return ast.Constant(None)
+    if r < 0.95: return ast.Constant(rng.choice([True, 1.5, ...]))
+    return ast.Attribute(ast.Name(rng.choice(ENAMES), L), 'attr', L)
+def gen(rng, d):
+    if d <= 0 or rng.random() < 0.15: return atom(rng)
+    g = lambda: gen(rng, d - 1)
+    k = rng.randrange(22)
+    if k == 0: return ast.UnaryOp(rng.choice([ast.USub, ast.Not, ast.Invert, ast.UAdd])(), g())
+    if k in (1, 2, 3): return ast.BinOp(g(), rng.choice(BINOPS)(), g())
+    if k in (4, 5): return ast.BoolOp(rng.choice([ast.And, ast.Or])(), [g() for _ in range(rng.randint(2, 3))])
+    if k == 6:
+        n = rng.randint(1, 2)
+        return ast.Compare(g(), [rng.choice(CMPOPS)() for _ in range(n)], [g() for _ in range(n)])
+    if k == 7: return ast.IfExp(g(), g(), g())
+    if k == 8:
+        args = ast.arguments(posonlyargs=[], args=[ast.arg(n) for n in rng.sample(['p', 'q'], rng.randint(0, 2))], vararg=None,
+                             kwonlyargs=[], kw_defaults=[], kwarg=None, defaults=[])
+        return ast.Lambda(args, g())
+    if k in (9, 10):
+        r = rng.random()
+        if r < 0.5: sl = g()
+        elif r < 0.7: sl = ast.Tuple([g() for _ in range(rng.randint(1, 3))], L)
+        elif r < 0.9: sl = ast.Slice(g() if rng.random() < 0.7 else None, g() if rng.random() < 0.7 else None, g() if rng.random() < 0.3 else None)
+        else: sl = ast.Tuple([ast.Slice(g(), None, None), g()], L)
+        return ast.Subscript(g(), sl, L)
+    if k == 11: return ast.Attribute(g(), rng.choice(['c', 'real', 'attr']), L)
+    if k in (12, 13):
+        args = [g() for _ in range(rng.randint(0, 2))]
+        if rng.random() < 0.25: args.append(ast.Starred(g(), L))
+        kws = [ast.keyword('k', g())] if rng.random() < 0.3 else []
+        if rng.random() < 0.2: kws.append(ast.keyword(None, g()))
+        return ast.Call(g(), args, kws)
+    if k == 14:
+        elts = [g() for _ in range(rng.randint(0, 3))]
+        if rng.random() < 0.3: elts.append(ast.Starred(g(), L))
+        return ast.List(elts, L)
+    if k == 15:
+        elts = [g() for _ in range(rng.randint(0, 3))]
+        if elts and rng.random() < 0.2: elts.insert(0, ast.Starred(g(), L))
+        return ast.Tuple(elts, L)
+    if k == 16:
+        n = rng.randint(0, 2)
+        keys = [g() for _ in range(n)]; vals = [g() for _ in range(n)]
+        if rng.random() < 0.25: keys.append(None); vals.append(atom(rng))   # {**(a if b else c)} is displayed without the parentheses (C15's domain, seen once): kept out
+        return ast.Dict(keys, vals)
+    if k == 17: return ast.Set([g() for _ in range(rng.randint(1, 3))])
+    if k == 18:
+        gens = [ast.comprehension(ast.Name('i', ast.Store()), g(), [g()] if rng.random() < 0.4 else [], 0)]
+        return rng.choice([lambda: ast.ListComp(g(), gens), lambda: ast.GeneratorExp(g(), gens), lambda: ast.SetComp(g(), gens),
+                           lambda: ast.DictComp(g(), g(), gens)])()
+    return atom(rng)
+TNAMES = ['int', 'str', 'A', 'B', 'T', 'List', 'Dict', 'Optional', 'Callable', 'None_']
+def gen_ann(rng, d, instr=False):
+    """type-like expressions: |, subscripts, attribute, lists inside Callable, Literal with data; strings at any operand."""
+    def wrap(n):
+        if not instr and rng.random() < 0.25:
+            return ast.Constant(ast.unparse(ast.fix_missing_locations(n)))
+        return n
+    if d <= 0 or rng.random() < 0.2:
+        r = rng.random()
+        if r < 0.7: return wrap(ast.Name(rng.choice(TNAMES), L))
+        if r < 0.8: return ast.Constant(None)
+        return wrap(ast.Attribute(ast.Name('m', L), rng.choice(TNAMES), L))
+    g = lambda: gen_ann(rng, d - 1, instr)
+    k = rng.randrange(12)
+    if k in (0, 1, 2): return wrap(ast.BinOp(g(), rng.choice([ast.BitOr, ast.BitOr, ast.BitOr, ast.BitAnd, ast.Add])(), g()))
+    if k in (3, 4, 5):
+        sl = g() if rng.random() < 0.5 else ast.Tuple([g() for _ in range(rng.randint(1, 3))], L)
+        return wrap(ast.Subscript(g(), sl, L))
+    if k == 6: return wrap(ast.Subscript(ast.Name('Callable', L), ast.Tuple([ast.List([g() for _ in range(rng.randint(0, 2))], L), g()], L), L))
+    if k == 7: return ast.Subscript(rng.choice([ast.Name('Literal', L), ast.Attribute(ast.Name('typing', L), 'Literal', L)]),
+                                    rng.choice([ast.Constant('a|b'), ast.Tuple([ast.Constant('x'), ast.Constant(1)], L), ast.Constant('int')]), L)
+    if k == 8: return wrap(ast.UnaryOp(ast.Invert(), g()))
+    if k == 9: return wrap(ast.Subscript(ast.Name('Optional', L), g(), L))
+    if k == 10: return wrap(gen(rng, 1))
+    return wrap(ast.Name(rng.choice(TNAMES), L))
+
+
+def expr_src(n: ast.AST) -> str:
+    return ast.unparse(ast.fix_missing_locations(n))
+
+
+MAXLEN = 60   # longer values that contain a lambda / conditional / comparison / comprehension are cut with '...' by
+              # colorize_inline_pyval (maxlines=1 + astor's line wrapping at ~70 columns): a display limit, kept out
+
+
+def _starred_in_slice_bound(n: ast.AST) -> bool:
+    # x[a:(*b, c)] is displayed x[a:*b, c], not Python at all: same defect as tuple-in-slice-bound, kept out
+    for sl in ast.walk(n):
+        if isinstance(sl, ast.Slice):
+            for b in (sl.lower, sl.upper, sl.step):
+                if isinstance(b, ast.Tuple) and any(isinstance(e, ast.Starred) for e in b.elts):
+                    return True
+    return False
+
+
+def gen_default(rng: Any) -> str:
+    for _ in range(50):
+        n = gen(rng, rng.randint(1, 3))
+        if _starred_in_slice_bound(n):
+            continue
+        t = expr_src(n)
+        if len(t) <= MAXLEN and _compiles('def f(p=%s): pass' % t):
+            return t
+    return 'None'
+
+
+def gen_annotation(rng: Any) -> str:
+    for _ in range(50):
+        n = gen_ann(rng, rng.randint(1, 3))
+        if _starred_in_slice_bound(n):
+            continue
+        if unquote(n, True) is not None and naive_splice(n) is None:
+            continue      # e.g. x | "not y" is displayed x|not y, not Python at all: the known unstrung-operand defect, kept out
+        t = expr_src(n)
+        if len(t) <= MAXLEN and _compiles('def f(p: %s): pass' % t):
+            return t
+    return 'int'
+
+
+def _compiles(src: str) -> bool:
+    import warnings
+    with warnings.catch_warnings():
+        warnings.simplefilter('ignore')
+        try:
+            compile(src, '<c14>', 'exec')
+            return True
+        except (SyntaxError, ValueError):
+            return False
+
+
+# compound shapes, run first in every tier (one definition per expression)
+CORPUS_DEFAULTS = [
+    '(a + b)[0]', '(args or defaults)[0]', '(-values)[i]', '(a if b else c)[0]', '(lambda: 0)[0]', '(a < b)[0]', '(not a)[0]',
+    'x[a + b]', 'x[a or b]', 'x[-1]', 'x[a if b else c]', 'x[lambda: 0]', 'x[a or b:c]', 'x[a:b, c]', 'x[::2]', 'x[a, b]',
+    '(a or b)[c or d]', '(a + b).c', '(a or b).c', '(-a).c', '(a if b else c).d', '(a or b)(c)', '(a + b)(c)', '(lambda x: x)(1)',
+    'f(*(a or b), **(c or d))', 'f(*a, **b)', 'f(a or b, k=c if d else e)', '[*a, *(b or c)]', '(*a, b)', '[a + b, [c or d, (e, f)]]',
+    '{a: [b, (c, d)], **e}', "{'k': {1: (2, 3)}}", 'not (a or b)', '-(a + b)', '(-a) ** 2', '-a ** 2', '(a ** b) ** c', 'a ** b ** c',
+    'a - (b - c)', 'a / (b * c)', '(a + b) * c', 'a < b < c', '(a < b) < c', 'a and (b or c)', 'not a and b', 'not (a and b)',
+    'a if b else (c if d else e)', '(a if b else c) if d else e', 'lambda x: x or y', '(lambda x: x) or y', 'a or (lambda: 0)',
+    'a not in b', 'a is not b', '(a, b) + (c, d)', '~(a | b)', '(a | b) & c', 'a ^ (b | c)', 'a << (b << c)', "'%s' % (x, y)",
+    '[i for i in x if (a or b)]', '(x for x in (a or b))', '{i: j for i, j in x}', '-x[0]', '(-x)[0]', '(a * b)[0]', '(a ** b)[0]',
+    'a ** b[0]', '(a, b)[0]', '[a, b][0]', '{a: b}[a]', "'abc'[0]", 'a.b(c).d[e]', '(a.b or c)[0]', '(a or b)(c)(d)', '(a or b)[c][d]']
+CORPUS_ANNOTS = [
+    'A | None', 'A | B | None', '(A | B)[int]', 'List[A | B]', 'Optional[A | B]', 'Dict[str, A | None]', '"A | B"', 'List["A | B"]',
+    '"A" | None', 'Callable[[A | B], C | None]', '"Callable[[A], B] | None"', '(A | B)', '"(A | B)[int]"', 'X["a|b"]', 'X["a|b", C]',
+    '"a.b" | c', '"a[b]" | c', 'Literal["a|b"] | None', 'A[B][C] | D', '"A[B]"[C]', '~A', 'Optional["A | B"] | None',
+    '(A | B)[int] | None', 'Dict[str, (A | B)[int]]', '"Dict[str, A | None]"', 'Tuple[A | B, ...]', 'x.y[A | B]', '(x or y)[A]']
+# known on the unchanged tree (see known_findings/C14.json)
+CORPUS_KNOWN = [(None, '"a|b" & c'), (None, '"A | B" | None'), (None, '~"a|b"'), ('x[(a, b):c]', None), ('(1,)', None)]
 
 
 # ------------------------------------------------------------------ the property, stated on what is displayed
@@ -184,8 +355,8 @@ def unquote(node: Optional[ast.AST], strict: bool = True) -> Optional[ast.AST]:
 class _Equiv(ast.NodeTransformer):
     """Expressions that mean the same are compared equal: {a, b} and set([a, b]) (pydoctor writes set displays
     the second way). relax_one_tuple (used only to CLASSIFY a failure, never to accept it): (x,) and (x)."""
-    def __init__(self, relax_one_tuple: bool = False) -> None:
-        self.relax = relax_one_tuple
+    def __init__(self, relax: Any = ()) -> None:
+        self.relax = 'one_tuple' in relax
 
     def visit_Set(self, n: ast.Set) -> ast.AST:
         self.generic_visit(n)
@@ -198,12 +369,100 @@ class _Equiv(ast.NodeTransformer):
         return n
 
 
-def dump(n: Optional[ast.AST], relax: bool = False) -> str:
+def dump(n: Optional[ast.AST], relax: Any = ()) -> str:
     return 'absent' if n is None else ast.dump(_Equiv(relax).visit(copy.deepcopy(n)))
 
 
 def all_args(a: ast.arguments) -> List[ast.arg]:
     return a.posonlyargs + a.args + ([a.vararg] if a.vararg else []) + a.kwonlyargs + ([a.kwarg] if a.kwarg else [])
+
+
+# ---- used ONLY to classify a failure as one of the known findings, never to accept a display ----------------
+def naive_splice(node: ast.AST) -> Optional[ast.AST]:
+    """The expression one gets by writing each string annotation's content in place of the string WITHOUT
+    parentheses (what pydoctor displays for an unstrung operand: its root node has no `parent`, so
+    _OperatorDelimiter never parenthesises it)."""
+    holes: Dict[str, str] = {}
+
+    def text_of(n: ast.AST) -> Optional[str]:
+        failed = []
+
+        class R(ast.NodeTransformer):
+            def visit_Constant(self, c: ast.Constant) -> ast.AST:
+                if isinstance(c.value, str):
+                    p = cc.parse_string(c.value)
+                    if p is None:
+                        failed.append(1)
+                        return c
+                    # inside the string everything is parenthesised properly (Parentage is re-run on the
+                    # parent-less root of the parsed expression); only that root is not
+                    q = unquote(p, True)
+                    if q is None:
+                        failed.append(1)
+                        return c
+                    t = ast.unparse(ast.fix_missing_locations(q))
+                    if not isinstance(q, (ast.UnaryOp, ast.BinOp, ast.BoolOp)):
+                        t = '(' + t + ')'      # only the operator nodes _OperatorDelimiter handles lose them
+                    key = '__S%d__' % len(holes)
+                    holes[key] = t
+                    return ast.Name(key, ast.Load())
+                return c
+
+            def visit_Subscript(self, x: ast.Subscript) -> ast.AST:
+                lit = _is_literal(x.value) or (isinstance(x.value, ast.Constant) and isinstance(x.value.value, str)
+                                                and _is_literal(cc.parse_string(x.value.value) or x.value))
+                v = self.visit(x.value)
+                return ast.Subscript(v, x.slice if lit else self.visit(x.slice), x.ctx)
+        out = ast.unparse(ast.fix_missing_locations(R().visit(copy.deepcopy(n))))
+        return None if failed else out
+    t = text_of(node)
+    if t is None:
+        return None
+    for _ in range(len(holes) + 1):
+        for k, v in holes.items():
+            t = t.replace(k, v)
+    try:
+        return ast.parse(t, mode='eval').body
+    except SyntaxError:
+        return None
+
+
+def naive_slice_tuple(node: ast.AST) -> ast.AST:
+    """x[(a, b):c] written as pydoctor displays it, x[a, b:c] (a tuple used as a slice bound loses its parentheses)."""
+    holes: Dict[str, str] = {}
+
+    class R(ast.NodeTransformer):
+        def visit_Slice(self, sl: ast.Slice) -> ast.AST:
+            self.generic_visit(sl)
+            for f in ('lower', 'upper', 'step'):
+                b = getattr(sl, f)
+                if isinstance(b, ast.Tuple) and b.elts:
+                    key = '__T%d__' % len(holes)
+                    holes[key] = ', '.join(ast.unparse(ast.fix_missing_locations(e)) for e in b.elts) + (',' if len(b.elts) == 1 else '')
+                    setattr(sl, f, ast.Name(key, ast.Load()))
+            return sl
+    t = ast.unparse(ast.fix_missing_locations(R().visit(copy.deepcopy(node))))
+    if not holes:
+        return node
+    for _ in range(len(holes) + 1):
+        for k, v in holes.items():
+            t = t.replace(k, v)
+    try:
+        return ast.parse(t, mode='eval').body
+    except SyntaxError:
+        return node
+
+
+def relax_want(node: Optional[ast.AST], relax: Any, is_annotation: bool) -> Optional[ast.AST]:
+    if node is None or not relax:
+        return node
+    if is_annotation and 'splice' in relax:
+        sp = naive_splice(node)
+        if sp is not None:
+            node = sp
+    if 'slice_tuple' in relax:
+        node = naive_slice_tuple(node)
+    return node
 
 
 def pair_annotation(want: Optional[ast.AST], got: Optional[ast.AST]) -> Tuple[Optional[ast.AST], Optional[ast.AST]]:
@@ -237,7 +496,7 @@ def describe_args(a: ast.arguments) -> str:
     return '[' + ', '.join(r) + ']'
 
 
-def compare_def(fd: Any, b: Any, line: str, relax: bool) -> Optional[str]:
+def compare_def(fd: Any, b: Any, line: str, relax: Any) -> Optional[str]:
     if b.name != fd.name or isinstance(b, ast.AsyncFunctionDef) != isinstance(fd, ast.AsyncFunctionDef):
         return 'displayed %r: name/async differ from the source (%s, async=%s)' % (
             line, fd.name, isinstance(fd, ast.AsyncFunctionDef))
@@ -245,13 +504,16 @@ def compare_def(fd: Any, b: Any, line: str, relax: bool) -> Optional[str]:
     wl, gl = all_args(wa), all_args(ga)
     for x in wl:
         x.type_comment = None
+        x.annotation = relax_want(x.annotation, relax, True)
+    wa.defaults = [relax_want(d, relax, False) for d in wa.defaults]
+    wa.kw_defaults = [relax_want(d, relax, False) for d in wa.kw_defaults]
     if len(wl) == len(gl):
         for x, y in zip(wl, gl):
             x.annotation, y.annotation = pair_annotation(x.annotation, y.annotation)
     if dump(wa, relax) != dump(ga, relax):
         return 'displayed %r does not have the written parameters: written %s displayed %s' % (
             line, describe_args(wa), describe_args(ga))
-    wr, gr = pair_annotation(fd.returns, b.returns)
+    wr, gr = pair_annotation(relax_want(fd.returns, relax, True), b.returns)
     if isinstance(wr, ast.Constant) and wr.value is None:
         wr = None
     if dump(wr, relax) != dump(gr, relax):
@@ -260,14 +522,30 @@ def compare_def(fd: Any, b: Any, line: str, relax: bool) -> Optional[str]:
     return None
 
 
-def oracle(case: Dict[str, Any], obs: Dict[str, Any], relax: bool = False) -> Optional[str]:
-    """None = the property holds on this observation (or does not apply: not a valid definition)."""
-    src = case['src']
-    try:
-        compile(src, '<c14>', 'exec')
-        tree = ast.parse(src)
-    except (SyntaxError, ValueError):
+RELAX_FLAGS = ('one_tuple', 'splice', 'slice_tuple')
+KNOWN_CLASS = {'one_tuple': 'one-element-tuple-expression', 'splice': 'unstrung-operand-not-parenthesised',
+               'slice_tuple': 'tuple-in-slice-bound'}
+
+
+def known_class(case: Dict[str, Any], obs: Dict[str, Any]) -> Optional[str]:
+    """The known finding (known_findings/C14.json `match.class`) that alone explains an oracle failure: the smallest
+    set of known renderings under which the display reads back as written; None if no such set."""
+    if oracle(case, obs) is None:
         return None
+    for n in (1, 2, 3):
+        for fl in itertools.combinations(RELAX_FLAGS, n):
+            if oracle(case, obs, relax=fl) is None:
+                return KNOWN_CLASS[fl[0]]
+    return None
+
+
+def oracle(case: Dict[str, Any], obs: Dict[str, Any], relax: Any = ()) -> Optional[str]:
+    """None = the property holds on this observation (or does not apply: not a valid definition).
+    relax: names of known renderings to identify -- used only by known_class()."""
+    src = case['src']
+    if not _compiles(src):
+        return None
+    tree = ast.parse(src)
     defs = cc.find_defs(tree, case['q'])
     if not defs:
         return None
@@ -419,9 +697,15 @@ class Check(PropertyCheck):
                                  ([['self', POK, None, None], ['a', PO, None, 'str']], 'str')]),
             make_case([], None, 'stub', overloads=[([['a', PO, '1', None]], 'None'), ([['a', KW, '2', '"T"']], '"R"')]),
         ]
+        for e in CORPUS_DEFAULTS:
+            corpus.append(make_case([['p', POK, e, None]], None))
+        for e in CORPUS_ANNOTS:
+            corpus.append(make_case([['p', POK, None, e]], e if len(corpus) % 3 == 0 else None))
+        for d, a in CORPUS_KNOWN:
+            corpus.append(make_case([['p', POK, d, a]], None))
         for c in corpus:
             c['stream'] = 'corpus'
-        out.extend(corpus)
+        out[0:0] = corpus            # run first
         # random longer signatures
         nrand = 400 if tier == 'quick' else 20000
         for _ in range(nrand):
@@ -518,7 +802,8 @@ class Check(PropertyCheck):
         cases = self.cases()
         impl, mw = self.run_cases(cases)
         self.evaluations += len(cases)
-        ncorr = norac = nknown = 0
+        ncorr = norac = 0
+        nknown: Dict[str, int] = {}
         seen_src = set()
         for c, o, m in zip(cases, impl, mw):
             self.count('stream_' + c['stream'])
@@ -548,11 +833,12 @@ class Check(PropertyCheck):
             msg = oracle(c, o)
             if msg is not None:
                 self.count('oracle_failures')
-                if oracle(c, o, relax=True) is None:
-                    # differs only by a one-element tuple expression shown without its comma (known, C15's domain)
-                    self.count('oracle_failures_one_tuple')
-                    if nknown < 2:
-                        nknown += 1
+                kc = known_class(c, o)
+                if kc is not None:
+                    # explained completely by a known rendering of an expression (C15's domain)
+                    self.count('oracle_failures_known_' + kc)
+                    if nknown.get(kc, 0) < 1:
+                        nknown[kc] = 1
                         out.append(Violation('oracle', msg, case=c, observed={'found': True, 'shown': o['shown']}))
                 elif norac < 6:
                     norac += 1
@@ -599,7 +885,7 @@ class Check(PropertyCheck):
                     o2 = lib.run_impl_worker('c14_sig.py', [{'t': 'def', 'src': c2['src'], 'q': c2['q']}])[0]
                 except lib.ImplCrash:
                     continue
-                if oracle(c2, o2) is not None:
+                if oracle(c2, o2) is not None and known_class(c2, o2) is None:
                     params, cur, progress = cand, c2, True
                     break
         return cur
@@ -800,8 +1086,8 @@ class Check(PropertyCheck):
         for c, o in zip(cases, impl):
             msg = oracle(c, o)
             if msg:
-                if oracle(c, o, relax=True) is None:
-                    continue     # the known one-element-tuple rendering; reported by correspondence()
+                if known_class(c, o) is not None:
+                    continue     # a known rendering; reported by correspondence()
                 out.append(Violation('oracle', msg, case=self.shrink(c, msg) if len(out) < 2 else c,
                                      observed={'found': o.get('found'), 'shown': o.get('shown'), 'err': o.get('err')}))
                 if len(out) >= 5:
@@ -809,17 +1095,18 @@ class Check(PropertyCheck):
         return out
 
     def classify_known(self, v: Violation, known: List[dict]) -> Optional[dict]:
-        """one-element-tuple: the displayed definitions read back as the written ones once (x,) and (x) are
-        identified -- and ONLY then; everything else about the signature must be right."""
+        """A known finding is recognised only when the displayed definitions read back exactly as the written ones
+        once that rendering of an expression is identified -- everything else about the signature must be right."""
         if v.kind != 'oracle' or not isinstance(v.case, dict) or v.case.get('t') != 'def':
             return None
         obs = v.observed
         if not isinstance(obs, dict) or not obs.get('found') or obs.get('shown') is None:
             return None
-        if oracle(v.case, obs) is None or oracle(v.case, obs, relax=True) is not None:
+        kc = known_class(v.case, obs)
+        if kc is None:
             return None
         for k in known:
-            if k.get('match', {}).get('class') == 'one-element-tuple-expression':
+            if k.get('match', {}).get('class') == kc:
                 return k
         return None
 
